@@ -537,13 +537,15 @@ v("C11", "cache-key-shifted", "break", ["C11.cache-key"], [("caller.go", "frameC
 v("C11", "cache-key-copy", "keep", [], [("caller.go", "\tpc := rpc[0]\n", "\tpc := rpc[0]\n\tcacheKey := pc\n"),
   ("caller.go", "frameCache.Load(pc)", "frameCache.Load(cacheKey)"), ("caller.go", "frameCache.Store(pc, &frame)", "frameCache.Store(cacheKey, &frame)")])
 v("C11", "setter-writes-other-flag", "break", ["C11.setters"], [("log.go", "\t\tfastCaller = b\n", "\t\tenableCaller = b\n")])
-# int32 multiplication: overflows only for max ages above 596523 h; the property quantifies over 1..720 h, where the
-# cut-off is the same (the retention evaluation shows it) — reclassified from break to keep
-v("C14", "age-narrow-multiplication", "keep", [], [("plugin_appender.go",
+# int32 multiplication: overflows for max ages above 596523 h (e.g. 999999 as "keep forever"): the cut-off moves into
+# the future and everything is deleted (seeded change C19-r3b); caught since the retention evaluation covers large ages
+v("C14", "age-narrow-multiplication", "break", ["C14"], [("plugin_appender.go",
   "time.Now().Add(-time.Duration(c.MaxAge) * time.Hour)", "time.Now().Add(-time.Duration(c.MaxAge*3600) * time.Second)")])
 # ... the same shape with a factor that does overflow inside the range: nanoseconds in int32 arithmetic
 v("C14", "age-overflows-in-range", "break", ["C14"], [("plugin_appender.go",
   "time.Now().Add(-time.Duration(c.MaxAge) * time.Hour)", "time.Now().Add(-time.Duration(c.MaxAge*3600*1000) * time.Millisecond)")])
+v("C14", "overflow-guard-removed", "break", ["C14"], [("plugin_appender.go",
+  "\tif int64(c.MaxAge) > maxHours {\n\t\treturn\n\t}\n", "\t_ = maxHours\n")])
 v("C14", "age-factors-swapped", "keep", [], [("plugin_appender.go",
   "time.Now().Add(-time.Duration(c.MaxAge) * time.Hour)", "time.Now().Add(-(time.Hour * time.Duration(c.MaxAge)))")])
 v("C15", "camel-upper-range-open", "break", ["C15.camel"], [("log_reader.go",
